@@ -972,6 +972,7 @@ func genHistory(r *lib.Rng, kind string) Case {
 			}
 			otherStream := func(s0 int) int { return (s0-1+r.Range(1, nStreams-1))%nStreams + 1 }
 			cu, live := curr[id]
+			fresh := false
 			switch y := r.Intn(100); {
 			case live && y < 12:
 				// the same rule posted again
@@ -983,17 +984,20 @@ func genHistory(r *lib.Rng, kind string) Case {
 				// replace: another destination, same stream
 				o = Op{K: "Add", ID: id, S: cu.s, Mode: mode(), U: nextU}
 				nextU++
+				fresh = true
 			case live:
 				// replace: another destination and another stream
 				o = Op{K: "Add", ID: id, S: otherStream(cu.s), Mode: mode(), U: nextU}
 				nextU++
+				fresh = true
 			default:
 				o = Op{K: "Add", ID: id, S: r.Range(1, nStreams), Mode: mode(), U: nextU}
 				nextU++
+				fresh = true
 			}
 			// now and then the destination of ANOTHER rule id (then that destination has one connection
 			// per rule naming it)
-			if o.U == nextU-1 && r.Chance(1, 10) {
+			if fresh && r.Chance(1, 10) { // only a destination number taken just now is given back
 				for other, cu := range curr {
 					if other != id && (cu.mode == "up" || cu.mode == "down") {
 						nextU--
